@@ -442,6 +442,10 @@ def filter_citations(citations: List[CitationBase]) -> List[CitationBase]:
 
         filtered_citations.append(citation)
 
+    # The sweep above needs full-span order, but the result must be in the
+    # order of the citations themselves: a later citation's full span can
+    # start before an earlier citation (its party names precede both).
+    filtered_citations.sort(key=lambda citation: citation.span())
     return filtered_citations
 
 
